@@ -86,6 +86,18 @@ impl Prop for P {
                 if rng.chance(2, 3) { c.push((2 + rng.below(2) as u8, rng.pick(&bs).clone())); }
                 rs.push(c);
             }
+            // bounds made of the extreme byte values, alone and after the first byte of a key: a bound that
+            // leaves the trie at the root or at a child on a byte no key has (the versions differ in how a
+            // node with more than 32 transitions is searched)
+            for b in [0x00u8, 0xFF, 0x80] {
+                rs.push(vec![(0, vec![b])]);
+                rs.push(vec![(1, vec![b, 0x00])]);
+                rs.push(vec![(3, vec![b])]);
+                if let Some(k) = ks.iter().find(|k| !k.is_empty()) {
+                    rs.push(vec![(rng.below(2) as u8, vec![k[0], b])]);
+                    rs.push(vec![(2 + rng.below(2) as u8, vec![k[0], b])]);
+                }
+            }
             for v in versions {
                 reqs.push((v, ops.clone()));
                 meta.push((v, ops.clone(), probes.clone(), rs.clone()));
